@@ -51,6 +51,27 @@ CHECKS = {
         "frame reads are reader-local (not scheduling points); GIL + queue.Queue lock trusted; timeouts modelled as nondeterministic Empty/Full; free-running sanity pass on the real queue.Queue is not part of the coverage claim",
         "DESIGN.md §3 C13",
     ),
+    "C01": (
+        "model_checking",
+        "exhaustive small-scope enumeration of keypoint tuples x image size x stride x sigma x variant against a float64 Gaussian reference",
+        "Every keypoint tuple from a small ordered coordinate alphabet (sub-pixel, on/outside the border, NaN, +inf, half-missing) for (animals,nodes) shapes up to 2x2 (thorough 3x3) x sizes x strides x sigmas x all variants (functional, centroid, both DataPipes, 1-2 samples) is run through the real generators and compared cell by cell with the property's formula; derived clauses (finite, [0,1], max at nearest cell, all-zero missing channel, inputs untouched) asserted directly. Complete within the bound.",
+        "alphabet/shape bound; float32 tolerance 1e-5",
+        "DESIGN.md §3 C01",
+    ),
+    "C16": (
+        "model_checking",
+        "exhaustive small-scope enumeration of label pairs x prediction edits x extra predictions x every single deletion through the real Evaluator",
+        "Every ground-truth/prediction pair within the bound (frames<=2, animals<=2/3, NaN masks, per-instance edit from a 5-6 value alphabet, one extra prediction at every score rank) is evaluated by the real Evaluator, together with every single-prediction deletion; fixed-point, boundedness, monotonicity, definitional and deletion clauses are asserted on each. Two known findings (K3 greedy duplicate, K5 unpredicted frame) are matched by signature predicates only.",
+        "bound on frames/animals/edit alphabet; 0/0 summaries (no matched pair) treated as 'no subject'",
+        "DESIGN.md §3 C16",
+    ),
+    "C19": (
+        "model_checking",
+        "crash-point enumeration: every prefix of the audit-hook log of file-system mutations of a real ModelTrainer construction + 1-step training run, x configuration grid",
+        "The real trainer runs for each configuration of the grid (model type x data framework x tracking x checkpointing x config kind, API key always present); an audit hook logs every file-system mutation under the output/chunk/wandb directories and at every such event the directory state left by all previous writes - the state a crash at that point leaves - is scanned for the key bytes (checkpoints are also unpickled); final artifacts are compared with the documented ones. All crash points of all runs are examined.",
+        "writes by the wandb service process are seen at the next event/final scan; torn writes covered by the prefix argument unless the key is split across files; litdata out of scope",
+        "DESIGN.md §3 C19",
+    ),
 }
 
 NOT_YET = {}
